@@ -354,6 +354,8 @@ func ruleTL2(c *Ctx) *rule {
 					r.ok(key, c.ipos(st), fmt.Sprintf("the constructor starts at %d", want))
 				} else if ok {
 					r.bad(key, c.ipos(st), fmt.Sprintf("the constructor sets %s to %d, not %d", role[1], k, want))
+				} else {
+					r.bad(key, c.ipos(st), fmt.Sprintf("the constructor sets %s to a computed value (%s), not %d: the text before it is never scanned", role[1], condText(a.val), want))
 				}
 				continue
 			}
